@@ -94,6 +94,37 @@ def gen(tier, rng):
     return cases
 
 
+DESCR = [b"Description\n  text\n", b"URL /a\n  Description\n    two\n    lines\n", b"Description\ntext\n\n"]
+
+
+def gen_after_description(tier, rng):
+    """the other place where a directive may start: the line that ends the text of a Description
+    (scanner/steps-description.go asks directive.IsStartWithDirective there).  Every word the
+    property makes a keyword, with every terminator glued to it."""
+    words = [k.encode() for k in scancorr.KEYWORDS] + [b"100", b"200", b"404", b"599"]
+    tails = [b"", b" x", b"\n", b"\r\n", b"\tx", b"/p", b"// a", b"/* a */", b"#c", b"# c\n", b"###\nc\n###\n"]
+    out = []
+    for pi, pre in enumerate(DESCR):
+        for w in words:
+            for t in tails:
+                if tier != "thorough" and pi and rng.random() > 0.3:
+                    continue
+                out.append((pre, w, t))
+    return out
+
+
+def judge_after_description(pre, w, t, res):
+    """a word accepted as a keyword at the start of a file is accepted on the line after a
+    Description text too: the keyword lexeme covers exactly the word"""
+    if expect(w + t) is None or expect(w + t)[0] != "kw" or expect(w + t)[2] is not None:
+        return None
+    want = "K:%d:%d" % (len(pre), len(pre) + len(w) - 1)
+    if want not in res["lex"]:
+        return "keyword %r followed by %r on the line after a Description text: expected lexeme %s, got lexemes=%s end=%s" % (
+            w.decode(), t.decode(), want, res["lex"], list(res["end"]))
+    return None
+
+
 def matches_finding(v, f):
     return False
 
@@ -103,6 +134,11 @@ def run(tier, out, model_ok, proof):
     cases = gen(tier, rng) + scancorr.gen_keywords_near(rng, 2000 if tier == "thorough" else 300)
     # unique ids
     cases = [("c%d" % i, d) for i, (_, d) in enumerate(cases)]
+    after = gen_after_description(tier, rng)
+    after_ids = {}
+    for j, (pre, w, t) in enumerate(after):
+        after_ids["d%d" % j] = (pre, w, t)
+        cases.append(("d%d" % j, pre + w + t))
     if model_ok:
         results, mism = scancorr.run_scan(cases, traj=True)
     else:
@@ -112,6 +148,11 @@ def run(tier, out, model_ok, proof):
     kinds = {}
     for cid, r in results.items():
         d = byid[cid]
+        if cid in after_ids:
+            why = judge_after_description(*after_ids[cid], r)
+            if why:
+                out.violations.append({"what": why, "input_hex": d.hex(), "input": d.decode("latin1")})
+            continue
         e = expect(d)
         kinds[str(e[0] if e else None)] = kinds.get(str(e[0] if e else None), 0) + 1
         if e is not None:
@@ -125,8 +166,9 @@ def run(tier, out, model_ok, proof):
     out.coverage.update({
         "evaluations": len(cases),
         "distinct_nontrivial": len(set(d for _, d in cases if expect(d) is not None)),
-        "rule": "words within one byte of every prefix of every keyword / response code (all 255 non-zero bytes at each cut%s; the next byte of the word, its other letter case and the terminators always), all 3-digit strings, every keyword head continued by the tail of every other keyword, case variants, x terminators; non-trivial = starts with a byte that can begin a keyword; each case: lexemes, error class/index and per-Next() configuration compared between scanner.Scanner and the extracted Coq model, and the implementation's result judged against a reference written from the property text" % ("" if tier == "thorough" else "; 25% sample in quick tier"),
+        "rule": "words within one byte of every prefix of every keyword / response code (all 255 non-zero bytes at each cut%s; the next byte of the word, its other letter case and the terminators always), all 3-digit strings, every keyword head continued by the tail of every other keyword, case variants, x terminators; every keyword and four response codes x 11 terminators on the line that ends a Description text (the second place where a directive may start), judged against the same reference shifted; non-trivial = starts with a byte that can begin a keyword; each case: lexemes, error class/index and per-Next() configuration compared between scanner.Scanner and the extracted Coq model, and the implementation's result judged against a reference written from the property text" % ("" if tier == "thorough" else "; 25% sample in quick tier"),
         "samples": [{"input": d.decode("latin1"), "impl": {"lex": results[c]["lex"], "end": list(results[c]["end"])}} for c, d in cases[:3] + cases[-2:]],
+        "after_description_text": len(after),
         "traces_validated_against_impl": len(cases) - len(mism) if model_ok else 0,
         "reference_kinds": kinds,
         "correspondence_mismatches": len(mism),
